@@ -175,7 +175,7 @@ Proof.
   - intros [H|[[n H]|[s' [f [H _]]]]]; discriminate.
   - intros _. right; left; eauto.
   - intros _. eauto.
-  - intros [x Hx]. destruct (parse_float s) as [f| | |] eqn:E; try discriminate. right; right; eauto.
+  - intros [x Hx]. destruct (parse_float s) as [f| |] eqn:E; try discriminate. right; right; eauto.
   - intros [H|[[n H]|[s' [f [H Hp]]]]]; try discriminate. injection H as <-. rewrite Hp. eauto.
 Qed.
 
